@@ -150,8 +150,8 @@ Definition fo_with_capacity (cap : nat) (seed : Z) (w : world) : new_res fo * wo
                 count_alloc (if Nat.eqb hc 0 then 0 else 1) w)
   end.
 
-Definition fo_from_list (l : list child) (w : world) : fo * world :=
-  let '(u, w) := fu_from_list P false (index_children l 0) w in
+Definition fo_from_list (hint : nat) (l : list child) (w : world) : fo * world :=
+  let '(u, w) := fu_from_list P false hint (index_children l 0) w in
   ({| fu_inner := u;
       fu_ord := {| oheap := []; hcap := 0; nin := Z.of_nat (length l) mod wmod; nout := 0 |} |}, w).
 
